@@ -793,3 +793,40 @@ def payload_variant_of(e):
     if isinstance(e, tuple) and e[0] == "field" and e[2] == "0" and e[1][0] == "variant":
         return e[1][2]
     return None
+
+
+# ---- linear normal form ------------------------------------------------------------------------------------------------
+def linear(e):
+    """(coefs, const): e as an integer-linear combination of non-additive atoms, so that `n - i - 1`, `n - 1 - i`
+    and `n - (i + 1)` compare equal. Atoms are the maximal subexpressions that are not + / - / multiplication by a
+    literal; induction variables are renamed to ('iv',) so that local numbering does not matter."""
+    coefs = {}
+    const = 0
+
+    def add(x, k):
+        nonlocal const
+        if isinstance(x, tuple) and x:
+            if x[0] == "int":
+                const += k * x[1]
+                return
+            if x[0] == "bin" and x[1] in ("Add", "Sub"):
+                add(x[2], k)
+                add(x[3], k if x[1] == "Add" else -k)
+                return
+            if x[0] == "bin" and x[1] == "Mul":
+                if isinstance(x[2], tuple) and x[2][:1] == ("int",):
+                    add(x[3], k * x[2][1])
+                    return
+                if isinstance(x[3], tuple) and x[3][:1] == ("int",):
+                    add(x[2], k * x[3][1])
+                    return
+            if x[0] == "iv":
+                x = ("iv",)
+        coefs[x] = coefs.get(x, 0) + k
+
+    add(e, 1)
+    return {a: c for a, c in coefs.items() if c}, const
+
+
+def lin_eq(a, b):
+    return linear(a) == linear(b)
